@@ -368,6 +368,15 @@ def run(check: Check) -> None:
             _crs_case(check, fnc, cyclic, kn, mode, tmo)
     for cyclic, df in ((False, 3), (False, 4), (True, 3)):
         _crs_center(check, cc if cyclic else cr, cyclic, train, df, tmo)
+    # a null x is neither inside nor outside the bounds: under EVERY mode its row is null, nothing is raised for it, the other rows and the
+    # recorded state are what they are without it (ground)
+    for tname, mode, replay_state in itertools.product(("cr", "cc", "cs", "bs"), ("extend", "clip", "zero", "na", "raise"), (False, True)):
+        p = {"kind": "c12_null_rows", "transform": tname, "mode": mode, "replay_state": replay_state}
+        bad = replays.run(p)
+        check.case(f"null rows {tname} {mode} replay={replay_state}")
+        check.obligation("nulls.modes/ground", "refuted" if bad else "ground")
+        if bad:
+            check.violation(f"null_rows({tname},extrapolation={mode})::{bad.split(':', 1)[0]}", bad, p)
     # centering when some TRAINING values lie outside explicit bounds, under every extrapolation mode (ground)
     for cyclic, mode in itertools.product((False, True), ("extend", "clip", "zero", "na")):
         p = {"kind": "c12_crs_center", "cyclic": cyclic, "train": train, "df": 4 if not cyclic else 3, "mode": mode, "bounds": [1.0, 5.0]}
